@@ -598,12 +598,16 @@ func (in *inst) stmt(st ast.Stmt) (pre []ast.Stmt, repl ast.Stmt, post []ast.Stm
 	case *ast.SelectStmt:
 		in.counts["select"]++
 		hasDefault := false
+		onlyRecv := true
 		for _, cc := range s.Body.List {
 			c := cc.(*ast.CommClause)
 			if c.Comm == nil {
 				hasDefault = true
 			} else {
 				in.funcLitsIn(c.Comm)
+				if _, isSend := c.Comm.(*ast.SendStmt); isSend {
+					onlyRecv = false
+				}
 			}
 			c.Body = in.list(c.Body)
 			if !hasDefault || c.Comm != nil {
@@ -611,6 +615,14 @@ func (in *inst) stmt(st ast.Stmt) (pre []ast.Stmt, repl ast.Stmt, post []ast.Stm
 			}
 		}
 		pre = append(pre, in.rtCall("Yield", in.site(s)))
+		if !hasDefault && onlyRecv && len(s.Body.List) >= 2 {
+			// A select that is entered while several cases are ready is decided by
+			// the runtime's private coin. Poll the cases one by one first, in an
+			// order taken from the tape, and only then block: after blocking exactly
+			// one event wakes the select, so the outcome is a function of the tape.
+			in.counts["select-ordered"]++
+			repl = in.orderedSelect(s)
+		}
 		return
 	case *ast.GoStmt:
 		in.counts["go"]++
@@ -695,6 +707,36 @@ func (in *inst) applyRedirects(n ast.Node) {
 		}
 		return true
 	})
+}
+
+// orderedSelect builds: if Flip { poll cases in source order } else { reverse order }; each
+// poll is a non-blocking select whose default falls through to the next poll and finally
+// to the original blocking select.
+func (in *inst) orderedSelect(s *ast.SelectStmt) ast.Stmt {
+	n := len(s.Body.List)
+	build := func(order []int) ast.Stmt {
+		var cur ast.Stmt = s
+		for k := len(order) - 1; k >= 0; k-- {
+			c := s.Body.List[order[k]].(*ast.CommClause)
+			cur = &ast.SelectStmt{Body: &ast.BlockStmt{List: []ast.Stmt{
+				&ast.CommClause{Comm: c.Comm, Body: c.Body},
+				&ast.CommClause{Comm: nil, Body: []ast.Stmt{cur}},
+			}}}
+		}
+		return cur
+	}
+	fwd := make([]int, n)
+	rev := make([]int, n)
+	for i := 0; i < n; i++ {
+		fwd[i] = i
+		rev[i] = n - 1 - i
+	}
+	in.usedRT = true
+	return &ast.IfStmt{
+		Cond: &ast.CallExpr{Fun: &ast.SelectorExpr{X: ast.NewIdent("verifsimrt"), Sel: ast.NewIdent("Flip")}, Args: []ast.Expr{in.site(s)}},
+		Body: &ast.BlockStmt{List: []ast.Stmt{build(fwd)}},
+		Else: &ast.BlockStmt{List: []ast.Stmt{build(rev)}},
+	}
 }
 
 // goStmt rewrites `go f(args)` into a block that evaluates the arguments in
